@@ -287,6 +287,43 @@ func init() {
 			}
 			judge(c, &c07Input{Unlock: u, Lock: l, Flags: fl, Mode: modeOf(r), Dbg: dbgOf(r, len(u)+len(l)), Src: "structured", Ctx: randCtx(r)})
 		}
+		c.Phase("der-variants") // structurally malformed signatures: every component missing, shortened or mis-sized, with the outer length kept consistent so that the deeper checks are reached
+		n = 0
+		pub := append([]byte{0x02}, bytesOf(0x11, 32)...)
+		for _, lenR := range []int{0, 1, 2, 31, 32, 33} {
+			for _, lenS := range []int{0, 1, 2, 32, 33} {
+				full := append([]byte{0x30, 0, 0x02, byte(lenR)}, bytesOf(0x21, lenR)...)
+				full = append(full, 0x02, byte(lenS))
+				full = append(full, bytesOf(0x31, lenS)...)
+				for cut := 2; cut <= len(full); cut++ {
+					for fix := 0; fix < 3; fix++ {
+						for _, fl := range []uint32{uint32(scriptflag.VerifyDERSignatures), uint32(scriptflag.VerifyStrictEncoding), uint32(scriptflag.VerifyLowS | scriptflag.UTXOAfterGenesis), uint32(scriptflag.EnableSighashForkID | scriptflag.UTXOAfterGenesis), 0} {
+							n++
+							if !c.Case(n) {
+								continue
+							}
+							body := append([]byte{}, full[:cut]...)
+							switch fix {
+							case 0:
+								body[1] = byte(len(body) - 2) // consistent outer length
+							case 1:
+								body[1] = byte(len(full) - 2) // the length the complete signature would have
+							case 2:
+								body[1] = byte(len(body) - 1)
+							}
+							sig := append(body, 0x41)
+							u := gen.Push(sig)
+							l := append(gen.Push(pub), 0xac)
+							if n%3 == 0 { // multisig
+								u = append([]byte{0x00}, u...)
+								l = append(append([]byte{0x51}, gen.Push(pub)...), 0x51, 0xae)
+							}
+							judge(c, &c07Input{Unlock: u, Lock: l, Flags: fl, Mode: "tx", Dbg: "none", Ctx: defaultCtx(), Src: "der-variants"})
+						}
+					}
+				}
+			}
+		}
 		c.Phase("enumerate")
 		n = 0
 		ops := gen.EdgeOperands
@@ -346,6 +383,14 @@ func init() {
 		return ""
 	}
 	mon.Register(p)
+}
+
+func bytesOf(b byte, n int) []byte {
+	o := make([]byte, n)
+	for i := range o {
+		o[i] = b
+	}
+	return o
 }
 
 func min(a, b int) int {
